@@ -455,8 +455,10 @@ def classify(clause, detail):
       and detail.get("diff") and all(re.match(r"[^ ]+\[\d+\]: ", d) for d in detail["diff"]) \
       and len(set(d.split("[")[0] for d in detail["diff"])) == 1:
     return "fault right after the ModifyColumn doc action: the values it converted are not restored"
-  if not injected:
-    # the exception is part of the root cause of a natural failure (message with numbers blanked)
+  if not injected and (sig.get("after_rollback") == "data or metadata differ"
+                       or sig.get("schema") != "consistent"):
+    # data or schema damaged by a natural failure: the exception (message with numbers blanked) is
+    # part of the class, so that a different failing action is a different class
     return "natural %s: %s" % (detail.get("raised"), symptoms)
   return symptoms
 
